@@ -141,8 +141,8 @@ class Schema:
         for i, a in enumerate(call.args):
             kw[pos[i]] = a
         if "children" in kw and not (isinstance(kw["children"], ast.Constant) and kw["children"].value is None):
-            if not isinstance(kw["children"], ast.List):
-                self.problems.append((f"{owner.fq}: children is not a list literal", mod, call))
+            if not isinstance(kw["children"], (ast.List, ast.Tuple)):
+                raise AnalysisError(f"{owner.fq}: children of the metadata is written in a form the schema reader does not understand: {ast.unparse(kw['children'])[:80]}")
             else:
                 mi.children = []
                 for x in kw["children"].elts:
@@ -152,11 +152,16 @@ class Schema:
                     else:
                         mi.children.append(self.parse_type(x, mod))
         if "map" in kw and not (isinstance(kw["map"], ast.Constant) and kw["map"].value is None):
-            if not isinstance(kw["map"], ast.Dict):
-                self.problems.append((f"{owner.fq}: map is not a dict literal", mod, call))
+            mp = kw["map"]
+            if isinstance(mp, ast.Call) and ast.unparse(mp.func) == "dict.fromkeys" and len(mp.args) == 2 and not mp.keywords \
+                    and isinstance(mp.args[0], (ast.Tuple, ast.List)) and not any(isinstance(x, ast.Starred) for x in mp.args[0].elts):
+                # dict.fromkeys((k1, k2, ...), T): every key maps to T, in the order written
+                mp = ast.Dict(keys=list(mp.args[0].elts), values=[mp.args[1]] * len(mp.args[0].elts))
+            if not isinstance(mp, ast.Dict):
+                raise AnalysisError(f"{owner.fq}: map of the metadata is written in a form the schema reader does not understand: {ast.unparse(mp)[:80]}")
             else:
                 mi.map = []
-                for k, v in zip(kw["map"].keys, kw["map"].values):
+                for k, v in zip(mp.keys, mp.values):
                     if k is None:
                         self.problems.append((f"{owner.fq}: ** spread in metadata map", mod, call))
                         continue
